@@ -26,7 +26,8 @@ MAXPOOL = 5
 
 
 class State:
-    def __init__(self):
+    def __init__(self, start=0):
+        self.start = start
         import cubed
         import cubed.array_api as xp
         import zarr
@@ -43,9 +44,16 @@ class State:
         y = xp.add(x, 1.0)
         # pool entries: [term, array, shadow value, ancestors (set of pool indices incl. self), declared chunks at creation]
         self.pool = [["x", x, XN.copy(), {0}, x.chunks], ["z", z, ZN.copy(), {1}, z.chunks], ["add1(x)", y, XN + 1, {0, 2}, y.chunks]]
+        if start == 1:
+            # second start state: two further arrays that share the lazy intermediate y (no derivations needed to reach sharing)
+            w_ = xp.negative(y)
+            v_ = y[1:]
+            self.pool.append(["neg(add1(x))", w_, -(XN + 1), {0, 2, 3}, w_.chunks])
+            self.pool.append(["add1(x)[1:]", v_, (XN + 1)[1:], {0, 2, 4}, v_.chunks])
         self.targets = []  # (store, expected array, label, source index)
         self.stored = []  # indices of pool arrays that were stored while lazy (uncomputed non-input)
         self.materialised = set()
+        self.computed_how = set()  # (array index, optimize_graph): decides which intermediates are in storage (matters for resume)
         self.executor = "single-threaded"
 
 
@@ -67,6 +75,11 @@ def events_of(st):
             ev.append(("compute", i, opt, False))
         ev.append(("compute", i, True, True))
     ev.append(("compute_all", True))
+    ev.append(("compute_all", "resume"))
+    for i in range(n):
+        for j in range(i + 1, n):
+            if i >= 2 or j >= 2:
+                ev.append(("compute_pair", i, j, True))  # two arrays in one compute, resume=True
     for i in range(n):
         for tk in ("new", "same", "diff"):
             for eager in (True, False):
@@ -128,8 +141,15 @@ def apply(st, e):
         r = pool[i][1].compute(executor=ex, optimize_graph=e[2], resume=e[3] or None)
         observe(i, r, f"compute(optimize_graph={e[2]}, resume={e[3]})")
         st.materialised.add(i)
+        st.computed_how.add((i, bool(e[2])))
+    elif k == "compute_pair":
+        i, j = e[1], e[2]
+        rs = cubed.compute(pool[i][1], pool[j][1], executor=ex, resume=True)
+        observe(i, rs[0], "compute(a, b, resume=True)")
+        observe(j, rs[1], "compute(a, b, resume=True)")
+        st.materialised |= {i, j}
     elif k == "compute_all":
-        rs = cubed.compute(*[p[1] for p in pool], executor=ex)
+        rs = cubed.compute(*[p[1] for p in pool], executor=ex, **({"resume": True} if e[1] == "resume" else {}))
         for i, r in enumerate(rs):
             observe(i, r, "compute of the whole pool")
         st.materialised |= set(range(len(pool)))
@@ -189,7 +209,7 @@ def canon(st):
     for i, (nm, a, v, anc, ch) in enumerate(st.pool):
         items.append((nm, i in st.materialised, type(a._zarray).__name__, a.chunks == ch))
     tg = sorted((nm, hashlib.sha1(v.tobytes()).hexdigest()[:8]) for _, v, nm, _ in st.targets)
-    return (tuple(items), tuple(tg), tuple(sorted(st.stored)), st.executor)
+    return (tuple(items), tuple(tg), tuple(sorted(st.stored)), st.executor, tuple(sorted(st.computed_how)), st.start)
 
 
 def classify(st, kind, info):
@@ -206,7 +226,15 @@ def classify(st, kind, info):
 def replay(hist):
     """returns (state, problems of the LAST event as [(sig, text)]) or (None, 'skip')"""
     import contextlib, io
-    st = State()
+    start = 0
+    if hist and hist[0][0] == "start":
+        start = hist[0][1]
+        hist = hist[1:]
+        st = State(start)
+        if not hist:
+            return st, []
+    else:
+        st = State(0)
     for n, e in enumerate(hist):
         try:
             with contextlib.redirect_stdout(io.StringIO()):
@@ -234,6 +262,10 @@ def interesting(hist):
     return any(e[0] in ("store", "to_zarr") for e in hist)
 
 
+def real_len(hist):
+    return len([e for e in hist if e[0] != "start"])
+
+
 def replay_case(case):
     st, p = replay([tuple(e) for e in case["history"]])
     if st is None:
@@ -246,9 +278,10 @@ def run(ctx):
     full_depth = 2 if tier == "quick" else 3
     max_depth = 3 if tier == "quick" else 4
     seen = {}
-    frontier = [[]]
-    st0, _ = replay([])
-    seen[canon(st0)] = []
+    frontier = [[], [["start", 1]]]
+    for h0 in frontier:
+        st0, _ = replay(h0)
+        seen[canon(st0)] = h0
     transitions = 0
     reported = set()
     levels = []
@@ -262,8 +295,12 @@ def run(ctx):
             for e in events_of(st):
                 if depth > full_depth:
                     # beyond the fully explored depth: only histories that contain a store, extended by observing events
-                    if not interesting(h) or e[0] not in ("compute", "compute_all", "store", "to_zarr"):
+                    # (quick: computes only; thorough: also further stores)
+                    allowed = ("compute", "compute_all", "compute_pair") if tier == "quick" else ("compute", "compute_all", "compute_pair", "store", "to_zarr")
+                    if not interesting(h) or e[0] not in allowed:
                         continue
+                    if tier == "quick" and e[0] == "compute" and (e[3] or not e[2]):
+                        continue  # quick: at the last level only the plain compute variant
                 items.append(h + [list(e)])
         results = ctx.pmap(step, perm(items, ctx.seed), chunksize=8)
         nxt = []
